@@ -840,3 +840,31 @@ package adt
 //@   ensures [ambiguous] isType(old(v.BaseValue), *Disjunction) && old(v.BaseValue.(*Disjunction).NumDefaults) > 1 ==> fresh(result) && isType(result.BaseValue, *Disjunction) && fresh(result.BaseValue.(*Disjunction)) && result.BaseValue.(*Disjunction).NumDefaults == 0 && len(result.BaseValue.(*Disjunction).Values) == old(v.BaseValue.(*Disjunction).NumDefaults)
 //@   ensures [closedlist] isType(old(v.BaseValue), *ListMarker) && old(v.BaseValue.(*ListMarker).IsOpen) ==> fresh(result) && isType(result.BaseValue, *ListMarker) && !result.BaseValue.(*ListMarker).IsOpen
 //@   assigns heap
+
+// ---- C03 / C20: which bounds can exist ----
+// The contracts of SimplifyBounds and of subsumption's bound test assume that a
+// BoundValue with an ordering or match operator never carries null, a bool, a
+// struct or a list (validBound). This is where bounds are made: evaluate returns
+// a BoundValue only for an operand of orderable kind, or for == / != .
+//@ func (*OpContext).value
+//@   assumed A-int: evaluates an expression to a value; a scalar value evaluates to itself
+//@   ensures isNumV(x) || isStrV(x) || isBytesV(x) || isBoolV(x) || isNullV(x) ==> result == x
+//@   assigns heap except all BoundExpr.Op + all BoundExpr.Expr
+//@ func isError
+//@   assumed A-int: type test for *Bottom
+//@   pure
+//@   ensures result == isBottomV(v)
+//@ func (*OpContext).NewPosf
+//@   assumed A-int: error constructor
+//@ func (*OpContext).addErrf
+//@   assumed A-int: records an incomplete error
+//@   assigns c.errs
+//@ func (Value).Concreteness
+//@   assumed A-int: dynamic dispatch
+//@ spec func orderableKind(k Kind) bool { k == IntKind || k == FloatKind || k == NumberKind || k == StringKind || k == BytesKind }
+//@ func (*BoundExpr).evaluate
+//@   may_panic
+//@   requires x != nil && ctx != nil
+//@   ensures [op] isType(result, *BoundValue) ==> result.(*BoundValue).Op == old(x.Op)
+//@   ensures [orderable] isType(result, *BoundValue) && old(x.Op) != EqualOp && old(x.Op) != NotEqualOp ==> !isNullV(result.(*BoundValue).Value) && !isBoolV(result.(*BoundValue).Value)
+//@   assigns heap
